@@ -14,6 +14,42 @@ HEADER = ('From Coq Require Import List NArith.\nImport ListNotations.\n'
           'From FIM Require Import Base.Assoc Model.Store Model.StoreDisjoint.\nOpen Scope N_scope.\n')
 
 
+def import_content(op, view):
+    """an (effective) import installs exactly the imported nodes and links"""
+    k = op[0]
+    want = []
+    for key, d in op[2]:
+        d = dict(d)
+        d['GraphID'] = op[1] if k == 'import' else d.get('GraphID')
+        want.append(sc.cprops({a: b for a, b in d.items() if b is not None}))
+    got = [n[1] for n in view[0]]
+    if got != want:
+        return 'graph %s does not hold exactly the imported nodes' % op[1]
+    pos = {key: j for j, (key, _) in enumerate(op[2])}
+    idx = {n[0]: j for j, n in enumerate(view[0])}
+    want_e = sorted(json.dumps([sorted([pos[a], pos[b]]), sc.cprops(d)]) for a, b, d in op[3])
+    got_e = sorted(json.dumps([sorted([idx[e[0]], idx[e[1]]]), e[2]]) for e in view[1])
+    if want_e != got_e:
+        return 'graph %s does not hold exactly the imported links' % op[1]
+    return None
+
+
+def clone_content(kind, a, b, dst):
+    """a clone has the content of its source under the new id"""
+    strip = lambda ps: [kv for kv in ps if kv[0] != sc.GID]
+    if [strip(n[1]) for n in a[0]] != [strip(n[1]) for n in b[0]] or any(sc.pget(n[1], sc.GID) != dst for n in b[0]):
+        return 'clone: node content differs from the source'
+    ia = {n[0]: j for j, n in enumerate(a[0])}
+    ib = {n[0]: j for j, n in enumerate(b[0])}
+    ea = sorted(json.dumps([sorted([ia[e[0]], ia[e[1]]]), e[2]]) for e in a[1])
+    eb = sorted(json.dumps([sorted([ib[e[0]], ib[e[1]]]), e[2]]) for e in b[1])
+    if ea != eb:
+        return 'clone: link content differs from the source'
+    if set(ia) & set(ib) and kind == 'shared':
+        return 'clone shares internal ids with its source'
+    return None
+
+
 def frame_oracle(kind, ops, obs):
     """the property over implementation observables: an operation addressed to g (other than the
     deliberate re-homing of nodes by rewriting GraphID, and node merging, which is cross-graph by
@@ -26,6 +62,7 @@ def frame_oracle(kind, ops, obs):
     snaps = sc.snapshots(obs, empty)
     prev = sc.views(kind, empty)
     rehomed = False
+    known = None
     for i, (op, o) in enumerate(zip(ops, obs)):
         # graph ids whose per-id nx.Graph holds nodes (whatever their GraphID property says)
         stored = set() if kind == 'shared' or i == 0 else {e[0] for e in snaps[i - 1]}
@@ -63,46 +100,27 @@ def frame_oracle(kind, ops, obs):
         if rehomed:          # nodes may now sit in a graph their GraphID does not name: content checks are off
             prev = cur
             continue
-        if k in ('import', 'import_direct') and ok:
+        if k in ('import', 'import_direct') and ok and not (k == 'import_direct' and sc.rehomes(op)):
             g = sc.SYM[op[1]]
+            # on the one-graph-per-id store an import / clone onto an id that holds nodes is SKIPPED (recorded finding)
             effective = kind == 'shared' or k == 'import_direct' or g not in stored
-            if effective and not (k == 'import_direct' and sc.rehomes(op)):
-                want = []
-                for key, d in op[2]:
-                    d = dict(d)
-                    d['GraphID'] = op[1] if k == 'import' else d.get('GraphID')
-                    want.append(sc.cprops({a: b for a, b in d.items() if b is not None}))
-                got = [n[1] for n in cur.get(g, [[], []])[0]]
-                if got != want:
-                    return 'step %d %s: graph %s does not hold exactly the imported nodes' % (i, k, op[1])
-                pos = {key: j for j, (key, _) in enumerate(op[2])}
-                gotn = cur.get(g, [[], []])[0]
-                idx = {n[0]: j for j, n in enumerate(gotn)}
-                want_e = sorted(json.dumps([sorted([pos[a], pos[b]]), sc.cprops(d)]) for a, b, d in op[3])
-                got_e = sorted(json.dumps([sorted([idx[e[0]], idx[e[1]]]), e[2]]) for e in cur.get(g, [[], []])[1])
-                if want_e != got_e:
-                    return 'step %d %s: graph %s does not hold exactly the imported links' % (i, k, op[1])
+            why = import_content(op, cur.get(g, [[], []]))
+            if why and effective:
+                return 'step %d %s: %s' % (i, k, why)
+            if why and known is None:
+                known = 'live-id-skipped: step %d import onto graph %s that holds nodes: %s' % (i, op[1], why)
         if k == 'clone' and op[1] != op[2]:
             src, dst = sc.SYM[op[1]], sc.SYM[op[2]]
             effective = kind == 'shared' or dst not in stored
-            if src in prev and effective and all(sc.pget(n[1], sc.NID) != 'ABSENT' for n in prev[src][0]):
-                if not ok:
-                    return 'step %d clone of existing graph %s raised %s' % (i, op[1], o['r'][2])
-                a, b = prev[src], cur.get(dst, [[], []])
-                strip = lambda ps: [kv for kv in ps if kv[0] != sc.GID]
-                if [strip(n[1]) for n in a[0]] != [strip(n[1]) for n in b[0]] or \
-                        any(sc.pget(n[1], sc.GID) != dst for n in b[0]):
-                    return 'step %d clone %s -> %s: node content differs' % (i, op[1], op[2])
-                ia = {n[0]: j for j, n in enumerate(a[0])}
-                ib = {n[0]: j for j, n in enumerate(b[0])}
-                ea = sorted(json.dumps([sorted([ia[e[0]], ia[e[1]]]), e[2]]) for e in a[1])
-                eb = sorted(json.dumps([sorted([ib[e[0]], ib[e[1]]]), e[2]]) for e in b[1])
-                if ea != eb:
-                    return 'step %d clone %s -> %s: link content differs' % (i, op[1], op[2])
-                if set(ia) & set(ib) and kind == 'shared':
-                    return 'step %d clone shares internal ids with its source' % i
+            if src in prev and all(sc.pget(n[1], sc.NID) != 'ABSENT' for n in prev[src][0]):
+                why = ('clone of existing graph %s raised %s' % (op[1], o['r'][2])) if not ok else \
+                    clone_content(kind, prev[src], cur.get(dst, [[], []]), dst)
+                if why and effective:
+                    return 'step %d %s' % (i, why)
+                if why and known is None:
+                    known = 'live-id-skipped: step %d clone %s -> %s onto an id that holds nodes: %s' % (i, op[1], op[2], why)
         prev = cur
-    return None
+    return known
 
 
 class Hist(Stream):
@@ -231,6 +249,16 @@ class C04(Check):
         'import_graph_*_direct stores graphs whose nodes all carry the GraphID being imported (checked by '
         'ABCGraphImporter.get_graph_id before the storage is called)',
     ]
+
+
+    def refuted_witnesses(self):
+        def f():
+            ops = [['add_node', 'g0', 'n0', 'c0', None], ['add_node', 'g1', 'n1', 'c0', None], ['clone', 'g0', 'g1'],
+                   ['list_ids', 'g1']]
+            obs = sc.run_history('disjoint', ops)
+            why = frame_oracle('disjoint', ops, obs)
+            return (bool(why) and 'live-id-skipped' in why, {'ops': ops, 'oracle': why, 'results': [o['r'] for o in obs]})
+        return [('C04_clone_live_skipped_disjoint_refuted', f)]
 
 
 if __name__ == '__main__':
